@@ -29,16 +29,29 @@ ToksBefore(f, via, ri) == Sum([i \in 1 .. ri - 1 |-> Count(f, via, f.recs[i])])
 (* tokens of the records that lie completely before byte `cut` *)
 MustHave(f, via, cut)  == Sum([i \in DOMAIN f.recs |-> IF f.recs[i].pos + f.recs[i].len <= cut THEN Count(f, via, f.recs[i]) ELSE 0])
 
+(* the same without the messages at log time 2^64-1 (rank tmax), which a read through Reader.Messages without an end
+   option does not return at all (known finding of C01 - C04) *)
+MsgCountX(r, tmax) ==
+  CASE r.k = "Chunk"   -> Cardinality({j \in DOMAIN r.inner : r.inner[j].k = "Message" /\ r.inner[j].log # tmax})
+    [] r.k = "Message" -> IF r.log # tmax THEN 1 ELSE 0
+    [] OTHER -> 0
+MustHaveX(f, via, cut, tmax) ==
+  IF via = "lex" THEN MustHave(f, via, cut)
+  ELSE Sum([i \in DOMAIN f.recs |-> IF f.recs[i].pos + f.recs[i].len <= cut THEN MsgCountX(f.recs[i], tmax) ELSE 0])
+
 IsPrefixObs(e, fulln) == e.n <= fulln /\ e.idx = Iota(e.n)
 (* a degraded attachment may only be the last thing returned before an error *)
 ShortOK(e) == e.short = <<>> \/ e.short = <<e.n>>
 
 (* C09 *)
-PrefixReadNames(e, f, fulln) ==
+PrefixReadNames(e, f, fulln, tmax) ==
+  LET via == IF e.via = "lex" THEN "lex" ELSE "msg" IN
   << <<"Prefix",     IsPrefixObs(e, fulln)>>,
      <<"Ending",     e["end"] \in {"eof", "error"}>>,
      <<"Attachment", ShortOK(e)>>,
-     <<"Complete",   e.n >= MustHave(f, IF e.via = "lex" THEN "lex" ELSE "msg", e.cut)>> >>
+     <<"Complete",   e.n >= MustHaveX(f, via, e.cut, tmax)>>,
+     \* only the messages at 2^64-1 of completely written chunks are missing: the known finding seen through a cut file
+     <<"Complete/LogTimeMaxNotReturned", e.n >= MustHave(f, via, e.cut) \/ e.n < MustHaveX(f, via, e.cut, tmax)>> >>
 
 (* C15: delivery independence *)
 FragmentedNames(e, full) ==
